@@ -99,7 +99,28 @@ type guardResult struct {
 	alloc    uint64
 }
 
+// guarded runs fn under recover and measures it.  A time or allocation budget
+// excess is confirmed by re-running the (idempotent) call: only an input that
+// is over budget three times in a row counts, so that a scheduling or GC stall
+// of a loaded machine is not mistaken for a slow input.
 func guarded(fn func()) (g guardResult) {
+	g = guardedOnce(fn)
+	for i := 0; i < 2 && !g.panicked && (g.dur > budgetTime || g.alloc > budgetAlloc); i++ {
+		g2 := guardedOnce(fn)
+		if g2.panicked {
+			return g2
+		}
+		if g2.dur < g.dur {
+			g.dur = g2.dur
+		}
+		if g2.alloc < g.alloc {
+			g.alloc = g2.alloc
+		}
+	}
+	return g
+}
+
+func guardedOnce(fn func()) (g guardResult) {
 	var m0, m1 runtime.MemStats
 	runtime.ReadMemStats(&m0)
 	t0 := time.Now()
@@ -275,6 +296,26 @@ func runModelCase(c Case) (o outcome) {
 		return runChunkCase(c)
 	case "cbor":
 		return runCborCase(c)
+	case "hex":
+		return runHexCase(c)
+	case "text":
+		return runTextCase(c)
+	case "encid":
+		return runEncIDCase(c)
+	case "akid":
+		return runAkidCase(c)
+	case "qemasks":
+		return runQeMasksCase(c)
+	case "quantity":
+		return runQuantityCase(c)
+	case "pbnode":
+		return runPbNodeCase(c)
+	case "frame":
+		return runFrameCase(c)
+	case "enum":
+		return runEnumCase(c)
+	case "sigstruct":
+		return runSigstructCase(c)
 	}
 	data := unhex(c.Data)
 	var in, out string
@@ -868,6 +909,8 @@ func main() {
 	out := flag.String("out", "", "output directory")
 	mode := flag.String("mode", "model", "model | search | mux")
 	replay := flag.String("replay", "", "replay a case description (JSON file)")
+	maxStack := flag.Int("maxstack", 64<<20, "rhpstack-child: goroutine stack limit")
+	reads := flag.Int("reads", 8<<20, "rhpstack-child: number of one-byte reads")
 	flag.Parse()
 	if *out == "" {
 		fmt.Fprintln(os.Stderr, "need -out")
@@ -909,7 +952,7 @@ func main() {
 		return
 	}
 	if *mode == "rhpstack-child" {
-		rhpStackChild()
+		rhpStackChild(*maxStack, *reads)
 		return
 	}
 	if *mode == "rhpstack" {
@@ -921,7 +964,7 @@ func main() {
 
 func runModel(seed uint64, n int, out string, rc *Case) {
 	initKeyFormats()
-	hdr := "From Verif Require Import Lib.Base Decode.GoSlice Decode.Node Decode.ProofEntries Decode.Quote Decode.KeyFormat Decode.Misc Decode.Cbor Decode.Cases.\n"
+	hdr := "From Verif Require Import Lib.Base Decode.GoSlice Decode.Node Decode.ProofEntries Decode.Quote Decode.KeyFormat Decode.Misc Decode.Cbor Decode.More Decode.Cases.\n"
 	wb := coqout.NewWriter(out, hdr, "run_case", "cout_eqb", 150)
 	sum := coqout.NewSummary("per decoder (Depth/Key/LeafNode/InternalNode.SizedUnmarshalBinary, node.UnmarshalBinary, verifyProof walk via hook, VerifyProof): 30% valid encodings made by the real marshalers (full, compact v0, compact v1), 25% length-field mutants (0, +-1, max, len, +k, 2^31, random), 15% truncations at field boundaries, 18% generic mutations (bit flips, kind bytes, splices, appended garbage), 12% random bytes; proof entry lists: random pre-order subtrees for v0/v1, chains of depth 126..200, list mutations (drop/extra/empty/kind/truncate/swap/unsupported version); encoders on random nodes. distinct = distinct (kind, input); non-trivial = the real decoder accepted the input (Ok) or the real encoder produced bytes")
 	var cases []Case
@@ -929,7 +972,7 @@ func runModel(seed uint64, n int, out string, rc *Case) {
 		cases = []Case{*rc}
 	} else {
 		r := prng.New(seed)
-		kinds := []string{"depth", "key", "leaf", "leaf", "inode", "inode", "inode", "node", "node", "walk", "walk", "proof", "proof", "enc", "quote", "quote", "quote", "keyformat", "keyformat", "fixed", "iasquote", "chunk", "cbor", "cbor", "cbor"}
+		kinds := []string{"depth", "key", "leaf", "leaf", "inode", "inode", "inode", "node", "node", "walk", "walk", "proof", "proof", "enc", "quote", "quote", "quote", "keyformat", "keyformat", "fixed", "iasquote", "chunk", "cbor", "cbor", "cbor", "more", "more", "more", "more", "more"}
 		loadQuoteSeeds()
 		// fixed boundary cases first
 		for _, h := range []string{"", "00", "01", "0140", "014000aabb", "01000002", "0100000200", "00010007ffffffff0102", "000000000000", "0000000000000000"} {
@@ -949,6 +992,7 @@ func runModel(seed uint64, n int, out string, rc *Case) {
 				cases = append(cases, Case{Kind: e.kind, Data: hex.EncodeToString(e.b[:cut]), Origin: "prefix:" + e.origin})
 			}
 		}
+		cases = append(cases, morePrefixCases(r.Fork())...)
 		for i := 0; i < n; i++ {
 			rr := r.Fork()
 			k := kinds[rr.Intn(len(kinds))]
@@ -969,6 +1013,8 @@ func runModel(seed uint64, n int, out string, rc *Case) {
 				cases = append(cases, genChunkCase(rr))
 			case "cbor":
 				cases = append(cases, genCborCase(rr))
+			case "more":
+				cases = append(cases, genMoreCase(rr))
 			default:
 				cases = append(cases, genDecodeCase(rr, k))
 			}
